@@ -1,5 +1,4 @@
-import ElkVerif.Proofs.Date
-import ElkVerif.Model.DateFmt
+import ElkVerif.Proofs.DateFmt
 /-!
 # C22 — Calendar arithmetic is exact, never wraps, and formatting round-trips
 -/
@@ -194,7 +193,16 @@ theorem dateString_eq_format (y m d : Int) :
   rw [hs]
   simp [fmtToks, fmtDateTok, fmtPad, dateString, bind, Except.bind, pure, Except.pure]
 
-/-- sample round trips (tests of the statement on boundary dates, not a proof of it) -/
+/-- `Date.parse(d.to_string) = d` under exactly the hypothesis that excludes the defect: every real date
+whose year is in 0 … 9999 (character-level model of `%04d-%02d-%02d`, `parseTemporalDigitsOk`,
+`constructDateFromTmp`, `Normalize`) -/
+theorem format_parse_roundtrip_partial (y m d : Int) (hy : 0 ≤ y ∧ y ≤ 9999) (hv : Valid y m d) :
+    parseDate defaultDateFormat (dateString (makeDate y m d)) = .ok (makeDate y m d) :=
+  dateString_parse y m d hy hv
+
+example : (0 : Int) ≤ 2024 ∧ (2024 : Int) ≤ 9999 ∧ Valid 2024 2 29 := by decide
+
+/-- sample round trips (tests of the statement on boundary dates) -/
 example : parseDate defaultDateFormat (dateString (makeDate 2024 2 29)) = .ok (makeDate 2024 2 29) := by decide
 example : parseDate defaultDateFormat (dateString (makeDate 0 1 1)) = .ok (makeDate 0 1 1) := by decide
 example : parseDate defaultDateFormat (dateString (makeDate 9999 12 31)) = .ok (makeDate 9999 12 31) := by decide
